@@ -599,7 +599,7 @@ def streams(tier):
     imp = "From Viv Require Import Common IndexMap."
     return [
         Stream(name="pairs", imports=imp, check="check_c04", gen=gen_pair, run=run_pair, corpus=corpus_pairs,
-               n_quick=60, n_thorough=600),
+               n_quick=60, n_thorough=500),
         Stream(name="sims", imports=imp, check="check_c04", gen=gen_sim, run=run_sim, corpus=corpus_sims,
                n_quick=18, n_thorough=200),
     ]
